@@ -11,7 +11,7 @@
     sub-object); [mergeable ks b] = at least two of them, one `_other`; [remaining ks] = keys not in a mergeable group;
     [mixed ks b] = cardinal and ordinal members; [collides ks b] = a remaining key is named b;
     [written ks b f] = ids of the values written for form f. *)
-From Coq Require Import List NArith Bool.
+From Coq Require Import List NArith Bool Permutation.
 Import ListNotations.
 From LI Require Import Base.StrOps Parser.Plurals Parser.PluralsProofs.
 
@@ -62,6 +62,15 @@ Theorem C05_unused : forall (locale : Type) (categories : locale -> rule -> list
   NoDup (map fst ks) -> merge_level is_key (categories l) path ks = ROk out ws ->
   forall w, In w ws <-> In w (expected_warnings (categories l) path ks).
 Proof. intros locale categories l is_key. exact (unused_level is_key (categories l)). Qed.
+
+(** whole project (`merge_plurals_inner`): every locale's unused forms — judged with that locale's own categories — are
+    reported, each exactly once, and the warnings do not depend on the order of the locales *)
+Theorem C05_unused_project : forall is_key path (cl : list ((rule -> list form) * list (str * ival))),
+  (forall c, In c cl -> NoDup (map fst (snd c)) /\ exists out ws, merge_level is_key (fst c) path (snd c) = ROk out ws) ->
+  Forall2 (fun c ws => NoDup ws /\ forall w, In w ws <-> In w (expected_warnings (fst c) path (snd c)))
+          cl (project_warnings is_key path cl)
+  /\ forall cl', Permutation cl cl' -> Permutation (project_warnings is_key path cl) (project_warnings is_key path cl').
+Proof. exact project_unused. Qed.
 
 (** the executable predicate the correspondence check evaluates on the implementation's answers holds of the model
     for every key map and every oracle *)
